@@ -117,7 +117,6 @@ func TestEngineSelectionE2E(t *testing.T) {
 	defer rec.Stop()
 	rapid.Check(t, func(t *rapid.T) {
 		flows := genFlows().Draw(t, "flows")
-		// the loader rejects two different parameter names at one position; a single name is generated, so every set loads
 		txns := rapid.SliceOfN(genTxn(flows), 1, 8).Draw(t, "txns")
 		c := testCase{Flows: flows, Txns: txns}
 		r.Case()
@@ -135,6 +134,18 @@ func TestEngineSelectionE2E(t *testing.T) {
 		}
 		s, err := dir.Load()
 		if err != nil {
+			// the loader refuses two spellings of a path parameter at one position: a set that carries both may be
+			// refused as a whole (if it is accepted, it is judged like any other)
+			hasX, hasY := false, false
+			for _, f := range flows {
+				for _, sgm := range f.Segs {
+					hasX, hasY = hasX || sgm == "{x}", hasY || sgm == "{y}"
+				}
+			}
+			if hasX && hasY && strings.Contains(err.Error(), "does not match existing name") {
+				r.Class("set refused for two spellings of one path parameter")
+				return
+			}
 			fmt.Println("VERIF-INFRA: generated flows were rejected:", err)
 			t.Fatalf("%v", err)
 		}
